@@ -531,10 +531,15 @@ def compare(case, io, toks, aux, rep=None):
                     fail("%s_scale_median_margin.respondents" % o, {"impl": imd, "respondents": exp})
     if "B" in io:
         B = io["B"]
-        removed = None
+        rem = {"rows": None, "columns": None}
         if _ok(B["row_order"]) and _ok(B["column_order"]):
-            removed = (len(set(int(x) for x in B["row_order"][1] if x >= 0)) < nr
-                       or len(set(int(x) for x in B["column_order"][1] if x >= 0)) < nc)
+            bro, bco = list(B["row_order"][1]), list(B["column_order"][1])
+            rows_removed = len(set(int(x) for x in bro if x >= 0)) < nr
+            cols_removed = len(set(int(x) for x in bco if x >= 0)) < nc
+            # columns_*_margin pairs the ROW values with the first displayed column of the row
+            # bases: it can only move when a row was removed or no column is displayed at all
+            rem["columns"] = rows_removed or len(bco) == 0
+            rem["rows"] = cols_removed or len(bro) == 0
         for o in ("rows", "columns"):
             if o not in model_margin or vs["margin_1d"]["rows"] is None or vs["margin_1d"]["columns"] is None:
                 continue   # an array dimension: the scalar depends on which vector is shown first
@@ -542,7 +547,7 @@ def compare(case, io, toks, aux, rep=None):
                 a, b = A[name], B[name]
                 if not _ok(a):
                     continue
-                ctx = {"sig": "margin-under-display-transforms", "removed": removed}
+                ctx = {"sig": "margin-under-display-transforms", "removed": rem[o]}
                 if not _ok(b):
                     fail(name + ".transformed", {"untransformed": a[1], "transformed": b,
                                                  "transforms": case["transforms"]}, exception=b[1], **ctx)
